@@ -25,6 +25,13 @@ type c01Case struct {
 	// parameter fields HOTP generation does not use: the code must not depend on them (omitted = 0)
 	Skew   uint64 `json:"skew,omitempty"`
 	Period uint64 `json:"period,omitempty"`
+	// How the parameter set reaches the call (omitted = a freshly built *Param, or nil if NilParam):
+	//  1: the values are written INTO the struct the exported otp.DefaultHOTPParam points to and that very pointer is passed
+	//  2: otp.DefaultHOTPParam is REPLACED by a pointer to the values and that pointer is passed
+	//  3: the values are written into the exported default and nil is passed ("If param is nil, DefaultHOTPParam is used")
+	//  4: the exported otp.DefaultTOTPParam pointer is passed, holding the values
+	// The exported defaults are restored after the call.
+	Via int `json:"via,omitempty"`
 }
 
 func counterClass(c uint64) string {
@@ -64,11 +71,33 @@ func checkC01(c c01Case) verdict {
 	} else {
 		param = &otp.Param{Digits: otp.Digits(c.Digits), Algorithm: otp.Algorithm(c.Algo), Skew: uint(c.Skew), Period: uint(c.Period)}
 	}
+	if c.Via != 0 && !c.NilParam {
+		// an application that customises the exported defaults, or hands them in explicitly: what the struct holds decides
+		hp, tp := otp.DefaultHOTPParam, otp.DefaultTOTPParam
+		hv, tv := *hp, *tp
+		defer func() { otp.DefaultHOTPParam, otp.DefaultTOTPParam = hp, tp; *hp, *tp = hv, tv }()
+		switch c.Via {
+		case 1:
+			*otp.DefaultHOTPParam = *param
+			param = otp.DefaultHOTPParam
+		case 2:
+			otp.DefaultHOTPParam = param
+		case 3:
+			*otp.DefaultHOTPParam = *param
+			param = nil
+		case 4:
+			*otp.DefaultTOTPParam = *param
+			param = otp.DefaultTOTPParam
+		}
+	}
 	got, err := otp.GenerateHOTP(secret, c.Counter, param)
 	supported := digits >= 1 && digits <= 10 && algo >= 0 && algo <= 2
 	labels := []string{counterClass(c.Counter), keyClass(len(c.Key))}
 	if c.NilParam {
 		labels = append(labels, "nilparam")
+	}
+	if c.Via != 0 && !c.NilParam {
+		labels = append(labels, fmt.Sprintf("via-exported-default=%d", c.Via))
 	}
 	if !c.NilParam && (c.Skew != 0 || c.Period != 0) {
 		labels = append(labels, "unused-param-fields-set")
@@ -127,6 +156,9 @@ func genC01(t *rapid.T) c01Case {
 	default:
 		c.Digits = gen.Digits().Draw(t, "digits")
 		c.Algo = rapid.IntRange(0, 2).Draw(t, "algo")
+	}
+	if !c.NilParam && rapid.IntRange(0, 5).Draw(t, "viaQ") == 0 {
+		c.Via = rapid.IntRange(1, 4).Draw(t, "via")
 	}
 	// the fields generation ignores: a window (also one validation would refuse) and a period, in a third of the cases
 	if !c.NilParam && rapid.IntRange(0, 2).Draw(t, "unusedQ") == 0 {
